@@ -34,6 +34,16 @@ func worldRun(g WGen, which cyc.Which, prop string) core.RunFunc {
 }
 
 func init() {
+	// the cycle properties are also evaluated on every cycle of closed-loop runs with faults
+	for id, w := range map[string]cyc.Which{"C01": {C01: true}, "C04": {C04: true}, "C05": {C05: true}, "C07": {C07: true}, "C08": {C08: true}} {
+		if sp, err := core.Lookup(id); err == nil {
+			sp.Extra = worldRun(WGen{Faults: true, Replicas2: true, ShortQuiet: true, ReloadFault: true}, w, id)
+			sp.ExtraEvery = 157
+			sp.ExtraNote = "every 157th run is a closed-loop world run (real sidecars, faults) whose every cycle is fed to the same oracle"
+			sp.Rule += "; every 157th run is a closed-loop world run (real coordinator + real sidecars + Prometheus stubs on the fake clock, with faults) whose every cycle trace goes through the same oracle"
+			sp.TapeCap = 400000
+		}
+	}
 	core.Register(&core.Spec{
 		ID: "C03", Engine: "world", Run: worldRun(WGen{}, cyc.Which{}, "C03"),
 		QuickRuns: 320, ThorRuns: 30000, QuickCap: 80 * time.Second, ThorCap: 14 * time.Minute, SelfCheckRuns: 8, TapeCap: 400000,
